@@ -710,7 +710,9 @@ func runC11(c *Check) {
 				}
 			}
 			// R2: built by append of tx from GetTxs under !has
-			apps := g.Select(func(n *Node) bool { return CallName(n) == "append" && n.Ctx.Depth == 0 })
+			apps := g.Select(func(n *Node) bool {
+				return CallName(n) == "append" && (n.Ctx.Depth == 0 || n.Ctx.Fn.Parent() == rp)
+			})
 			okBuild := false
 			for _, a := range apps {
 				elem := ArgTerm(a, 1)
